@@ -12,6 +12,7 @@ import (
 	"os"
 	"reflect"
 	"runtime"
+	"runtime/debug"
 	"runtime/pprof"
 	"strings"
 	"sync"
@@ -315,6 +316,11 @@ func (x *explorer) visit(w *world, path []op) bool {
 	if len(path) >= x.depth {
 		return true
 	}
+	if memHigh.Load() {
+		x.cut.Store(true)
+		x.r.Incomplete(fmt.Sprintf("memory budget reached at depth %d of the depth-%d exploration (ids=%d, counts=%d): expansion stopped", len(path), x.depth, x.cfg.ids, x.cfg.counts))
+		return true
+	}
 	if x.r.OutOfTime() || (!x.until.IsZero() && time.Now().After(x.until)) {
 		x.cut.Store(true)
 		x.r.Incomplete(fmt.Sprintf("time budget: some subtrees of the depth-%d exploration (ids=%d, counts=%d) not explored", x.depth, x.cfg.ids, x.cfg.counts))
@@ -378,6 +384,7 @@ func (x *explorer) visit(w *world, path []op) bool {
 			ok = x.visit(w, npath)
 		}
 		w.roots = w.roots[:nroots]
+		w.forget(k.result, here)
 		w.inner.Store(here)
 		w.wb = wbHere
 		if !ok {
@@ -387,6 +394,28 @@ func (x *explorer) visit(w *world, path []op) bool {
 	return true
 }
 
+// forget drops the path-scoped digests of the entries that exist only in the child's chain (memory bound: the table
+// then holds at most the entries of the current path).
+func (w *world) forget(child, parent *preconfirmed.ChainReader) {
+	if child == nil || child == parent {
+		return
+	}
+	for e := range child.NewestFirst() {
+		keep := false
+		if parent != nil {
+			for pe := range parent.NewestFirst() {
+				if pe == e {
+					keep = true
+					break
+				}
+			}
+		}
+		if !keep {
+			delete(w.dumps, e)
+		}
+	}
+}
+
 // visitRobust is the fallback used for a task after a confirmed immutability violation: objects shared between
 // sibling subtrees can no longer be trusted, so EVERY transition is executed on a world re-executed from scratch
 // (fresh storage, fresh wire objects). Slower by a factor of the depth, but the enumeration still completes and
@@ -394,6 +423,11 @@ func (x *explorer) visit(w *world, path []op) bool {
 func (x *explorer) visitRobust(path []op) {
 	x.nodes.Add(1)
 	if len(path) >= x.depth {
+		return
+	}
+	if memHigh.Load() {
+		x.cut.Store(true)
+		x.r.Incomplete(fmt.Sprintf("memory budget reached at depth %d of the depth-%d exploration (ids=%d, counts=%d): expansion stopped", len(path), x.depth, x.cfg.ids, x.cfg.counts))
 		return
 	}
 	if x.r.OutOfTime() || (!x.until.IsZero() && time.Now().After(x.until)) {
@@ -492,6 +526,12 @@ func TestCheck(t *testing.T) {
 		_ = pprof.StartCPUProfile(fh)
 		defer pprof.StopCPUProfile()
 	}
+	// bin/check exports GOGC=600; this harness churns through short-lived copies of memory.Database, so the default
+	// would let the heap grow to a multiple of what is live. Soft limit + guard keep RSS well under 8 GB.
+	debug.SetGCPercent(125)
+	debug.SetMemoryLimit(5 << 30)
+	stopGuard := startMemGuard()
+	defer stopGuard()
 	budget := ev.Pick(r, 170, 1500)
 	r.SetBudget(budget)
 	t0 := time.Now()
@@ -551,6 +591,8 @@ func TestCheck(t *testing.T) {
 		r.Violate("shared-class-definition-mutated", map[string]any{})
 	}
 
+	r.Set("mem_peak_go_runtime_mb", int64(memPeak.Load()>>20))
+	r.Set("mem_guard_tripped", memHigh.Load())
 	r.Set("states", x.nodes.Load())
 	r.Set("transitions", x.transitions.Load())
 	r.Set("traces_validated_against_impl", x.nodes.Load())
@@ -587,6 +629,43 @@ func TestCheck(t *testing.T) {
 		"class definition objects are harness-owned and shared between blocks; their deep hash is checked once at the end",
 		"free-running goroutine pass is a smoke only; the race detector is used only if the binary was built with -race")
 	r.Finish()
+}
+
+// memory guard: sampled every 250 ms; above memSoftCap of heap in use + not yet returned to the OS, every explorer
+// and harness B stop expanding and the run finishes with exhaustive:false instead of being killed.
+const memSoftCap = 6 << 30
+
+var (
+	memHigh atomic.Bool
+	memPeak atomic.Uint64
+)
+
+func startMemGuard() (stop func()) {
+	done := make(chan struct{})
+	go func() {
+		tk := time.NewTicker(250 * time.Millisecond)
+		defer tk.Stop()
+		var ms runtime.MemStats
+		for {
+			select {
+			case <-done:
+				return
+			case <-tk.C:
+				runtime.ReadMemStats(&ms)
+				inUse := ms.Sys - ms.HeapReleased
+				if inUse > memPeak.Load() {
+					memPeak.Store(inUse)
+				}
+				if inUse > memSoftCap {
+					if !memHigh.Load() {
+						memHigh.Store(true)
+					}
+					debug.FreeOSMemory()
+				}
+			}
+		}
+	}()
+	return func() { close(done) }
 }
 
 func (x *explorer) merge(y *explorer) {
